@@ -417,6 +417,25 @@ def _run_aliases(case, ctx, m):
         diff_ = lib(cs.load, other_decl.format(b=bname, o=other) + "\n")
         if not isinstance(diff_, Err):
             raise Violation("different-target-redeclaration-accepted", f"{other_decl.format(b=bname, o=other)!r} was accepted after {decl.format(b=bname, o=other)!r}")
+    # an alias registered by NAME follows its target: after the target is deliberately re-pointed (replace=True), every alias
+    # in the chain -- used before or not -- resolves to what the target now is
+    lib(cs.add_type, "RP0", "uint16")
+    for i in range(1, 1 + max(1, case["depth"] % 4)):
+        lib(cs.add_type, f"RP{i}", f"RP{i - 1}")
+    last = f"RP{max(1, case['depth'] % 4)}"
+    used_first = case["multi"] % 2 == 0
+    if used_first:
+        first = _with_watchdog(lambda: (cs.resolve(last), getattr(cs, last), cs.read(last, b"\x01\x02\x03\x04")))
+        if first == "HANG" or isinstance(first, Err) or first[0] is not cs.uint16 or first[2] != 0x0201:
+            raise Violation("alias-not-same-type", f"{last} -> ... -> RP0 -> uint16 resolves to {first!r}")
+    r = lib(cs.add_type, "RP0", "uint32", replace=True)
+    if isinstance(r, Err):
+        raise Violation("alias-rejected", f"add_type('RP0', 'uint32', replace=True): {r}", r.where)
+    for nm in ["RP0", last]:
+        got = _with_watchdog(lambda nm=nm: (cs.resolve(nm), getattr(cs, nm), cs.read(nm, b"\x01\x02\x03\x04")))
+        if got == "HANG" or isinstance(got, Err) or got[0] is not cs.uint32 or got[1] is not cs.uint32 or got[2] != 0x04030201:
+            raise Violation("alias-not-same-type", f"after RP0 was re-pointed to uint32 (replace=True), {nm} ({'resolved before' if used_first else 'never resolved before'}; chain {last} -> ... -> RP0) gives {got!r}, expected the very type uint32")
+    ctx.count("aliases:target-re-pointed:" + ("alias-used-before" if used_first else "alias-not-used-before"))
     ctx.count(f"aliases:depth:{case['depth']}")
     ctx.count("aliases:via:" + case["via"])
     ctx.mark_nontrivial(case)
